@@ -302,6 +302,9 @@ def parse_sig(sig):
     return {'name': name, 'params': params, 'ret': ret}
 
 
+TRAIT_POSTS = 5
+
+
 def ghost_decls(sig):
     """Trait-level ghost members for a crate trait method (see DESIGN 5)."""
     ps = parse_sig(sig)
@@ -317,14 +320,16 @@ def ghost_decls(sig):
     n = ps['name']
     has_self = any(slf for _, _, slf in ps['params'])
     decl = '    spec fn %s_pre(%s) -> bool;\n' % (n, ', '.join(plist))
-    decl += '    spec fn %s_post(%s) -> bool;\n' % (n, ', '.join(plist + ['r: %s' % ret]))
     recv = 'self.' if has_self else 'Self::'
     req = '%s%s_pre(%s)' % (recv, n, ', '.join(args))
-    ens = '%s%s_post(%s)' % (recv, n, ', '.join(args + ['r']))
+    ens = []
+    for i in range(TRAIT_POSTS):
+        decl += '    spec fn %s_post%d(%s) -> bool;\n' % (n, i, ', '.join(plist + ['r: %s' % ret]))
+        ens.append('%s%s_post%d(%s)' % (recv, n, i, ', '.join(args + ['r'])))
     return decl, req, ens, plist, ret
 
 
-def weave_fn(item_text, key, contract, mode, em, no_requires=False):
+def weave_fn(item_text, key, contract, mode, em, no_requires=False, no_ensures=False):
     """Emit the function `item_text` with `contract` woven in.
     mode: 'F' (forward: requires pre && ok, ensures post) or
           'D' (dev-profile partial correctness: requires pre, ensures ok && post)."""
@@ -385,6 +390,9 @@ def weave_fn(item_text, key, contract, mode, em, no_requires=False):
     if no_requires:
         # trait impl methods: requires come from the trait (ghost members / *SpecImpl); extra ensures allowed
         requires = []
+    if no_ensures:
+        # impls of crate traits: every clause is carried by the trait-level ghost posts
+        ensures = []
     if requires:
         em.emit('    requires', ('fn', key))
         for n, p in requires:
@@ -611,7 +619,7 @@ class Unit:
                 c = methods[ch.name]
                 if is_crate_trait and c is not None:
                     em.emit(self._ghost_defs(ch, c, mode), ('ghost', k))
-                weave_fn(ch.text, k, c, mode, em, no_requires=(trait is not None))
+                weave_fn(ch.text, k, c, mode, em, no_requires=(trait is not None), no_ensures=is_crate_trait)
             else:
                 em.emit(rewrite_body(strip_attrs_and_comments(ch.text)), ('impl', e.key))
         missing = set(methods) - seen
@@ -632,8 +640,12 @@ class Unit:
             else:
                 post = [x for (_, x) in c.ok] + post
         rn = c.ret
+        if len(post) > TRAIT_POSTS:
+            raise AnchorLost('more than %d post clauses on a trait method (%s)' % (TRAIT_POSTS, n))
         out = '    open spec fn %s_pre(%s) -> bool { %s }\n' % (n, ', '.join(plist), _conj(pre))
-        out += '    open spec fn %s_post(%s) -> bool { %s }\n' % (n, ', '.join(plist + ['%s: %s' % (rn, ret)]), _conj(post))
+        for i in range(TRAIT_POSTS):
+            body = post[i] if i < len(post) else 'true'
+            out += '    open spec fn %s_post%d(%s) -> bool { %s }\n' % (n, i, ', '.join(plist + ['%s: %s' % (rn, ret)]), body)
         return out
 
     def _emit_trait_decl(self, e, it, header, mode, em, meta):
@@ -649,7 +661,7 @@ class Unit:
             decl, req, ens, plist, ret = ghost_decls(sig)
             em.emit(decl, ('impl', e.key))
             k = e.key + '::' + ch.name
-            c = Contract(pre=[req], post=[('trait.' + ch.name, ens)])
+            c = Contract(pre=[req], post=[('post%d' % i, x) for i, x in enumerate(ens)])
             if body is not None:
                 # default method body: verified against the trait-level contract
                 meta['functions'][k] = _fn_meta(ch, e.src)
@@ -693,7 +705,7 @@ class Unit:
         ret = c.out_type or ps['ret']
         out += '    open spec fn %s(%s) -> %s { %s }\n' % (st['spec'], ', '.join(plist), ret, val)
         out += '}\n'
-        em.emit(rewrite_body(out), ('specimpl', e.key))
+        em.emit(out, ('specimpl', e.key))
 
 
 def _conj(xs):
